@@ -18,6 +18,13 @@ def script_program(rng, ncos=None, wrap_prob=0.25):
     n = ncos or rng.randint(1, 3)
     wrapped = [rng.random() < wrap_prob for _ in range(n)]
     ss = [p.local(["co"], [p.table([])]), p.local(["shared"], [p.num(0)])]
+    if any(wrapped):
+        # a wrap function's coroutine is an ordinary thread once its body has published coroutine.running(): it can be
+        # driven through coroutine.resume and through the wrap function in any order, each answering in its own way
+        ss.append(p.local(["pub"], [p.table([])]))
+        ss.append(p.localfunction("rw", p.func(["k"], p.block([
+            p.if_([p.index(p.id("pub"), p.id("k"))], [p.block([p.ret([p.str("thread"), p.call(_co(p, "resume"), [p.index(p.id("pub"), p.id("k")), p.dots()])])])]),
+            p.ret([p.str("wrap"), p.call(p.id("pcall"), [p.index(p.id("co"), p.id("k")), p.dots()])])]), va=True, ud=True)))
     # status reporter (created coroutines only)
     st_args = [p.str("st")]
     for k in range(n):
@@ -36,6 +43,8 @@ def script_program(rng, ncos=None, wrap_prob=0.25):
     def resume_expr(i, args):
         target = p.index(p.id("co"), p.num(i + 1))
         if wrapped[i]:
+            if rng.random() < 0.5:
+                return p.call(p.id("rw"), [p.num(i + 1)] + args)
             return p.call(p.id("pcall"), [target] + args)
         return p.call(_co(p, "resume"), [target] + args)
 
@@ -128,7 +137,10 @@ def script_program(rng, ncos=None, wrap_prob=0.25):
 
     for k in range(n):
         tag = "b%d" % (k + 1)
-        body = [p.emit([p.str(tag + "-start"), p.dots()])] + body_ops(k, 0)
+        body = [p.emit([p.str(tag + "-start"), p.dots()])]
+        if wrapped[k] and rng.random() < 0.7:
+            body.append(p.assign([p.index(p.id("pub"), p.num(k + 1))], [p.call(_co(p, "running"), [])]))
+        body += body_ops(k, 0)
         f = p.func([], p.block(body), va=True, ud=True)
         ctor = "wrap" if wrapped[k] else "create"
         ss.append(p.assign([p.index(p.id("co"), p.num(k + 1))], [p.call(_co(p, ctor), [f])]))
